@@ -615,6 +615,16 @@ func runSpk(t *testing.T, prop string) {
 		} else {
 			spkFaultMenu = false
 		}
+		spkReadFaultMenu = false
+		if prop == "C09" {
+			// one failing API read (List / Get) inside a delivery: the delivery is retried, nothing half-read is applied
+			spkReadFaultMenu = true
+			b.MaxFault = 1
+			if !thorough {
+				// quick tier: the kinds whose absence changes what the universe's configurations mean
+				spkReadFaultKinds["dcfg"] = []string{"IPAddressPool", "BGPPeer", "L2Advertisement", "BGPAdvertisement", "Secret", "Node"}
+			}
+		}
 		if prop == "C09" {
 			// a speaker that never settles does not converge at all: states from which no delivery order reaches quiescence
 			b.Quiescent = func(sys verifrt.System) bool { return sys.(*spkSys).settledModuloRetries() }
